@@ -38,7 +38,7 @@ for d in sorted(os.listdir(os.path.join(ROOT, "seeded")), key=key):
     title = title.replace("|", "/")[:120]
     n += 1
     ok = r.get("exit") == 1
-    pp, ii = d.split("-"); rd = round_of(pp, int(ii))
+    pp, ii = d.split("-"); rd = m.get("round") or round_of(pp, int(ii))
     rounds[rd][0] += 1
     nt = r.get("note", "")
     if any(k in nt for k in ("first run", "first attempt", "not a sequential", "not reachable", "needs a harvest", "race inside", "check catches it")):
